@@ -70,7 +70,7 @@ class C07Check(Check):
         "without any available annotator existed. Distinct by (subject, argument representation, fault kinds, probes)."
     )
     fault_kinds = ["annotator_offline", "pair_unavailable", "no_answer"]
-    probes_expected = ["row_without_available_annotator", "fewer_annotators_than_requested", "batch_clipped", "repr_none_none", "repr_none_idx", "repr_none_bool", "repr_idx_bool", "repr_rows", "multi_cycle", "utilities_checked", "napa_array", "napa_array_shorter_than_batch"]
+    probes_expected = ["row_without_available_annotator", "fewer_annotators_than_requested", "batch_clipped", "repr_none_none", "repr_none_idx", "repr_none_bool", "repr_idx_bool", "repr_rows", "multi_cycle", "utilities_checked", "napa_array", "napa_array_shorter_than_batch", "mask_not_bool_dtype", "labeled_sample_still_candidate"]
     assumptions = [
         "availability is what the candidates/annotators arguments say (documented table); with both None: pairs whose label is missing",
         "termination is judged with a deterministic fuel of %d line events inside skactiveml per query" % FUEL,
@@ -113,6 +113,7 @@ class C07Check(Check):
                 "A_perf": ([round(g.uniform(-3, 3), 2) for _ in range(na)] if g.chance(0.5) else [[round(g.uniform(-3, 3), 2) for _ in range(na)] for _ in range(n)]) if g.chance(0.3) else None,
                 # an index array of annotators may legally repeat an index
                 "dup_annot_idx": g.chance(0.2),
+                "mask_dtype": g.pick(["bool", "bool", "int", "float"]),
             }
             cycles.append(cyc)
         return {"engine": "crowdsim", "subject": subject, "model": "pwc", "seed": g.randrange(0, 1000), "X": X.tolist(), "y0": y0, "truth": truth, "cycles": cycles, "y_aggregate": g.pick([None, None, "mv3", "first"]), "iet": g.pick([None, None, {"epsilon": 0.5, "alpha": 0.5}, {"epsilon": 1.0, "alpha": 0.01}, {"epsilon": 0.0, "alpha": 0.2}])}
@@ -185,6 +186,10 @@ class C07Check(Check):
         done_cycles = 0
         for t, cyc in enumerate(sc["cycles"]):
             cand_arg, ann_arg, A, rows = self.availability(cyc, y, n, na)
+            if cyc["avail"] == "bool" and cyc.get("mask_dtype", "bool") != "bool" and ann_arg is not None:
+                # the availability mask as 0/1 integers or floats (array-like of truth values)
+                ann_arg = np.asarray(ann_arg).astype(np.int64 if cyc["mask_dtype"] == "int" else float)
+                ctx.probe("mask_not_bool_dtype")
             rep = f"{cyc['cand']}_{cyc['avail']}"
             ctx.probe("repr_rows" if cyc["cand"] == "rows" else "repr_" + rep)
             if cyc["offline"]:
